@@ -508,7 +508,7 @@ class Field(BaseField):
 
         if value is None:
             value = self.default
-            if isinstance(value, (list, dict, set)):
+            if isinstance(value, (list, dict, set, tuple)):
                 # every configuration gets its own copy of a mutable default
                 value = copy.deepcopy(value)
 
